@@ -100,6 +100,24 @@ def t_whitespace(rng, toks, tabs):
     return out
 
 
+PAREN_KW = set("NOT AND OR MOD XOR EQV IMP WHILE UNTIL IF ELSEIF CASE TO STEP".split())
+
+
+def t_paren_blank(rng, toks):
+    """Drops the blank between an operator / statement keyword and an opening parenthesis (NOT (A) -> NOT(A)),
+    or inserts one where there is none."""
+    out = []
+    n = len(toks)
+    for i, t in enumerate(toks):
+        if (t[0] == "ws" and out and out[-1][0] == "word" and out[-1][1].upper() in PAREN_KW and i + 1 < n and toks[i + 1] == ["sym", "("]
+                and rng.random() < 0.7):
+            continue
+        out.append(t)
+        if t[0] == "word" and t[1].upper() in PAREN_KW and i + 1 < n and toks[i + 1] == ["sym", "("] and rng.random() < 0.5:
+            out.append(["ws", " "])
+    return out
+
+
 def t_blank_lines(rng, toks):
     out = []
     for t in toks:
@@ -200,7 +218,7 @@ def t_split_colon(rng, toks):
 
 
 TRANSFORMS = ["kw_upper", "kw_lower", "kw_mixed", "id_consistent", "id_inconsistent", "ws", "ws_tabs", "blank_lines",
-              "comments", "lf", "crlf", "cr", "eol_mixed", "join_colon", "split_colon", "all"]
+              "comments", "lf", "crlf", "cr", "eol_mixed", "join_colon", "split_colon", "paren_blank", "all"]
 CASE_T = ("kw_upper", "kw_lower", "kw_mixed", "id_consistent", "id_inconsistent", "all")
 
 
@@ -236,10 +254,13 @@ def apply(rng, name, src):
         toks = t_join_colon(rng, toks)
     elif name == "split_colon":
         toks = t_split_colon(rng, toks)
+    elif name == "paren_blank":
+        toks = t_paren_blank(rng, toks)
     else:
         toks = t_keyword_case(rng, toks, "mixed")
         toks = t_ident_case(rng, toks, False)
         toks = t_whitespace(rng, tokenize(untokenize(toks)), False)
+        toks = t_paren_blank(rng, toks)
         toks = t_blank_lines(rng, toks)
         toks = t_eol(rng, toks, "mixed")
     return untokenize(toks)
